@@ -1,9 +1,9 @@
 CONSTANTS
   Lens = {0, 1, 2, 3, 64}
-  BaseTables = {"minimal", "odd", "mixed"}
-  Targets = {"cls", "inst", "ts", "impl", "ivn", "src", "snd", "rcv", "pcu", "ver", "priv", "gl", "other2", "foreign", "nested"}
+  BaseTables = {"odd", "mixed"}
+  Targets = {"cls", "ts", "ivn", "src", "pcu", "priv", "other2", "nested"}
   ActNames = {"Remove","Empty","SetVr","Truncate","PushStr","PushU16","SetStr","Set","SetIfMissing","SetStrIfMissing","Replace","ReplaceStr"}
+  MaxSteps = 2
 SPECIFICATION MSpec
 INVARIANTS TypeOK GroupLengthOK LayoutAgrees RoundTrip
-CONSTANT MaxSteps = 2
 CHECK_DEADLOCK FALSE
